@@ -1,37 +1,439 @@
-"""C18 -- gamma-family accuracy (relative error in modulus below 2^(8-p)).  Exemplar for the specfun engine;
-the table is extended by the C18 builder."""
+"""C18 -- gamma-family accuracy: relative error (in modulus) below 2^(8-p) away from poles; rgamma exactly zero at the
+poles and gamma raising there.
+
+Observed: value returned by the public function at precision p for exactly built dyadic arguments.
+Oracle: three-source consensus (vf.specfun_j.consensus3): release 1.3.0 at two precisions, the tree at 3p+300 bits, and
+for adjudicated cells a defining relation evaluated in the reference library.
+Regimes (cells fixed a priori, key = C18/<function>/<label>) are aimed at the switch conditions of
+libmp/gammazeta.py: small-integer cache (n < 150), exact factorial (n*mag < 10 wp), half-integers, |x| < 2^-wp,
+Taylor (n < max(100, 0.2 wp)) vs Stirling (with/without argument reduction), reflection (x < 0), loggamma near 1 and 2
+and beyond 2^wp, mpc_gamma: |z| < 2^-8, |Im| < 2^-10 and < 2^-wp, reflection, loggamma branch bookkeeping;
+mpf_psi0/mpc_psi0: x < 2^-5, reflection (x <= -8), log-only (x > 2^wp), recurrence (x < 0.11 wp + 2)."""
+import math
 from vf import specfun as S
-from vf.specfun import Regime, args, real_in, complex_in, near, integer, half_integer
+from vf import specfun_j as J
+from vf.specfun import args, real_in, complex_in, near, integer, half_integer, choice
+from vf.specfun_j import (Cell, cell, real_p, around, near_c, near_p, near_any, cplx, polar, uniform, ints, const,
+                          args_p, dy, fl)
+from vf.catalog import R, C, I, raw_rand, canon
 
 PROP = 'C18'
 LEVEL = 'exploration'
 NEEDS_REF = True
-RULE = ('stratified cells (function x argument regime fixed a priori) x precision list; concrete arguments from the seeded rng; '
-        'non-trivial = a finite reference value exists and the result was compared; distinct = (function, regime, args, prec)')
-ASSUMPTIONS = ['consensus reference: mpmath 1.3.0 at p+64 and 2p+200 bits and the tree at 3p+300 bits agree to 2^-(p+32)']
-SHARD_TIMEOUT = {'quick': 400, 'thorough': 3000}
-CASES = {'quick': 120, 'thorough': 2500}
+RULE = ('stratified cells (function x argument regime fixed a priori, aimed at the algorithm switch points of the source) x '
+        'precision list 10..1000 (quick: <= 400); concrete arguments from the seeded rng; non-trivial = a finite reference '
+        'value exists on which two sources agree and the result was compared; distinct = (function, regime, args, prec)')
+ASSUMPTIONS = ['consensus reference: two of {mpmath 1.3.0 at p+64 and 2p+200 bits, the tree at 3p+300 bits, a defining '
+               'relation in the reference library (adjudicated cells only)} agree to 2^-(p+32)',
+               'arguments are injected exactly (raw mantissa/exponent) in the tree and in the reference library']
+LEVEL_TEXT = ('exploration: every (function, regime) cell of the table is evaluated a fixed number of times per tier at '
+              'precisions 10..400 (quick) / 10..1000 (thorough); each result is compared with a consensus reference; '
+              'poles: rgamma == 0 exactly and gamma raises, checked exactly for integers 0..-N, huge negative integers, '
+              'int/mpf/mpc argument types')
+LEVEL_NOTE = ('trusted base: release mpmath 1.3.0 + the tree at 3p+300 bits agreeing to 2^-(p+32); a defect that is identical '
+              'in both and at every precision is not seen; inputs outside the listed cells are not covered')
+TECHNIQUE = 'runtime reference-model monitor: consensus accuracy oracle on every observed special-function value'
+SHARD_TIMEOUT = {'quick': 420, 'thorough': 3000}
+NSHARDS = 16
 
-TABLE = {
-    'gamma': [Regime('pos-real', args(real_in(-3, 6, 0))), Regime('neg-real', args(real_in(-3, 5, 1))),
-              Regime('complex', args(complex_in(-3, 5))), Regime('near-pole', args(near(-3, 1, 4, 40))),
-              Regime('tiny', args(real_in(-60, -20)))],
-    'rgamma': [Regime('real', args(real_in(-3, 6))), Regime('complex', args(complex_in(-3, 5)))],
-    'loggamma': [Regime('pos-real', args(real_in(-3, 8, 0))), Regime('complex', args(complex_in(-3, 6))),
-                 Regime('near-neg-axis', args(complex_in(0, 5, -30, -10)))],
+# high-precision special points, value = n / 2^256
+Z = {
+    'gamma_min': 0x1762d86356be3f6e1a9c8865e0a4f06b1535f48637884c0e9f183c220ffee24d5,
+    'psi_zero_neg1': -0x810b9582f71300966b82202dffae0af5021a42a72a15e76f0c7341dec6fb3807,
+    'psi_zero_neg2': -0x192d0cbc289d4a12262d144a30e3ebeec2e41697ab4d99b825e1099662c4d87aa,
+    'psi_zero_neg3': -0x29c5833ecf3cb38e119990bac2e596d9e32e367deb50bbc0a1cf799a3b6309b11,
+    'loggamma_negzero': -0x274ff92c01f0d82abec9f315f1a0712c334804d9a79cb5d46094d457f3b57dfdd,
+    'harmonic_zero_neg': -0x1913e1876d59fb5848372b350493db49c73a1596bc3b5fd2c34d4b73620f1e9e4,
 }
 
 
+def wp_gamma(p):
+    return p + 25
+
+
+def pole_near(nlo, nhi, kmin=4, kmax=40, pk=None, im=None):
+    """-n +- 2^-k for n in [nlo, nhi].  ENVELOPE ("away from poles"): the distance to the pole is at least 4 units of
+    2^-p relative to max(1, |pole|), i.e. k <= p - 2 - bitlength(nhi): an argument closer than that rounds to the pole
+    itself at the working precision.  Fixed before looking at any result."""
+    cap = lambda p: max(kmin, p - 2 - int(nhi).bit_length())
+    if pk is None:
+        f = lambda p: (kmin, min(kmax, cap(p)))
+    else:
+        f = lambda p: (pk(p)[0], min(pk(p)[1], cap(p)))
+    return near_any(list(range(-nhi, -nlo + 1)), pk=f, im=im)
+
+
+def gamma_like(types):
+    """regimes common to gamma / rgamma (/ factorial with shifted poles)"""
+    return [
+        Cell('int-cache', args(integer(1, 149))),
+        Cell('int-exact-factorial', args(integer(150, 700))),
+        cell('int-large', ints(1000, 1001, 4096, 10**4, 10**5, 10**6, 2 * 10**6 + 1)),
+        Cell('half-int', args(half_integer(-160, 160))),
+        Cell('half-int-large', args(half_integer(-3000, 3000))),
+        Cell('pos-taylor', args(real_in(-3, 6, 0))),
+        cell('pos-switch-100', around(100, 3)),
+        cell('pos-switch-stirling', around(lambda p: max(100, 0.2 * wp_gamma(p)), 4)),
+        Cell('pos-stirling', args(real_in(7, 20, 0))),
+        Cell('neg-taylor', args(real_in(-3, 6, 1))),
+        cell('neg-switch-100', around(100, 3, sign=-1)),
+        Cell('neg-stirling-reflection', args(real_in(7, 14, 1))),
+        cell('tiny-switch', real_p(lambda p: (-p - 27, -p - 15))),
+        cell('tiny', real_p(lambda p: (-3 * p - 100, -p - 40))),
+        Cell('small', args(real_in(-30, -3))),
+        cell('near-pole-small', pole_near(0, 6, pk=lambda p: (4, p + 40))),
+        cell('near-pole-taylor', pole_near(7, 99, pk=lambda p: (4, p + 10))),
+        cell('near-pole-stirling', pole_near(100, 3000, pk=lambda p: (4, p + 10))),
+        cell('near-minimum', near_c(Z['gamma_min'], 256, 3, 60)),
+        Cell('complex', args(complex_in(-3, 5))),
+        Cell('complex-left', args(lambda r, b: C(raw_rand(r, b, -2, 6, 1), raw_rand(r, b, -3, 5)))),
+        cell('complex-tiny', cplx(real_p(lambda p: (-p - 30, -6)), real_p(lambda p: (-p - 30, -6)))),
+        cell('complex-tiny-switch', cplx(real_p(lambda p: (-p - 24, -p - 16)), real_p(lambda p: (-p - 40, -p - 16)))),
+        cell('complex-im-small', cplx(real_in(-2, 7), real_p(lambda p: (-p - 19, -9)))),
+        cell('complex-im-tiny', cplx(real_in(-2, 7), real_p(lambda p: (-2 * p - 60, -p - 21)))),
+        cell('complex-near-pole', pole_near(0, 120, 4, 40, im=lambda p: (-min(40, max(5, p - 10)), -4))),
+        Cell('complex-large', args(complex_in(6, 13))),
+        Cell('complex-im-large', args(lambda r, b: C(raw_rand(r, b, -2, 4), raw_rand(r, b, 5, 12))), cost=2),
+        Cell('imaginary-axis', args(lambda r, b: C((0, 0, 0, 0), raw_rand(r, b, -6, 8)))),
+    ]
+
+
+def _gp(num, den):
+    """gammaprod with a fixed shape; arguments a..., b... flat"""
+    def f(mp, *a):
+        return mp.gammaprod(list(a[:num]), list(a[num:num + den]))
+    return f
+
+
+def _psi_m(mp, m, z):
+    return mp.psi(m, z)
+
+
+def _beta_sum_near(exact):
+    """beta(x, y) with x + y = -n +- 2^-k next to a non-positive integer (pole of the denominator gamma -> zero of beta).
+    exact=True: x + y is representable in 2p bits (the precision at which beta forms the sum); exact=False: it is not
+    (k > 2p), so the sum rounds to the integer itself"""
+    def g(r, b, p):
+        from vf import exactq as Q
+        xb = min(30, max(4, p - 2))
+        x = fl(r.uniform(-6.5, 4.5), xb)
+        n = -r.randint(0, 8)
+        if exact:
+            k = r.randint(min(xb + 1, 2 * p - 7), 2 * p - 6)
+        else:
+            k = r.randint(2 * p + 1, 2 * p + 40)
+        ex = Q.add(Q.sub(Q.Ex(n), Q.from_raw(x)), Q.from_raw(dy(r.choice([-1, 1]), k)))    # y = n - x +- 2^-k exactly
+        return [R(x), R(Q.exact_raw(ex))]
+    return g
+
+
+def _raised(name, extra):
+    """R3 for cells where release 1.3.0 is not self-consistent at p+64 bits because of a known cancellation: the
+    defining formula evaluated in the reference library with extra(args) additional bits"""
+    def f(mp, *a):
+        with mp.extraprec(int(extra(mp, *a))):
+            return getattr(mp, name)(*a) if isinstance(name, str) else name(mp, *a)
+    return f
+
+
+def _fac2_def(mp, x):
+    return 2 ** (x / 2) * (mp.pi / 2) ** ((mp.cospi(x) - 1) / 4) * mp.gamma(x / 2 + 1)
+
+
+def _psi_safe(mp, z):
+    """digamma through the reflection formula for Re z < 0 (mpc_psi0 of release 1.3.0 and of the tree does not
+    terminate for some non-real z with negative real part); sinpi/cospi reduce the argument exactly"""
+    if mp.im(z) != 0 and mp.re(z) < 0:
+        return mp.digamma(1 - z) - mp.pi * mp.cospi(z) / mp.sinpi(z)
+    return mp.digamma(z)
+
+
+def _harmonic_def(mp, x):
+    return _psi_safe(mp, 1 + x) + mp.euler
+
+
+_psi_oracle = _raised(_psi_safe, lambda mp, z: 40)
+_harm_oracle = _raised(_harmonic_def, lambda mp, x: max(0, -mp.mag(x)) + 40)
+_fac2_oracle = _raised(_fac2_def, lambda mp, x: 5 * abs(mp.im(x)) + 60)
+
+
+small_int = integer(-8, 12)
+pos_real = real_in(-3, 5, 0)
+any_real = real_in(-3, 5)
+
+TABLE = {
+    'gamma': gamma_like(0),
+    'rgamma': gamma_like(2),
+    'factorial': [
+        Cell('int', args(integer(0, 400))),
+        cell('int-large', ints(1000, 4095, 10**4, 10**5, 10**6)),
+        Cell('real', args(real_in(-3, 8))),
+        cell('switch-100', around(99, 3)),
+        cell('tiny', real_p(lambda p: (-2 * p - 60, -p - 12))),
+        cell('near-pole', pole_near(1, 120, pk=lambda p: (4, p + 10))),
+        Cell('half-int', args(half_integer(-200, 200))),
+        Cell('complex', args(complex_in(-3, 6))),
+        cell('complex-tiny', cplx(real_p(lambda p: (-p - 40, -6)), real_p(lambda p: (-p - 40, -6)))),
+    ],
+    'loggamma': [
+        Cell('int', args(integer(1, 600))),
+        Cell('pos-real', args(real_in(-3, 8, 0))),
+        cell('pos-switch-100', around(100, 3)),
+        Cell('pos-stirling', args(real_in(7, 30, 0))),
+        cell('huge-switch', real_p(lambda p: (p + 16, p + 26), 0)),
+        cell('huge', real_p(lambda p: (p + 30, 3 * p + 200), 0)),
+        cell('tiny', real_p(lambda p: (-2 * p - 60, -p - 12), 0)),
+        cell('near-1', near_p(1, lambda p: (3, 10))),
+        cell('near-1-close', near_p(1, lambda p: (11, p + 18))),
+        cell('near-1-closest', near_p(1, lambda p: (p + 19, 2 * p + 60))),
+        cell('near-2', near_p(2, lambda p: (3, 10))),
+        cell('near-2-close', near_p(2, lambda p: (11, p + 18))),
+        cell('near-2-closest', near_p(2, lambda p: (p + 19, 2 * p + 60))),
+        Cell('neg-real', args(real_in(-3, 6, 1))),
+        Cell('neg-real-large', args(real_in(7, 14, 1))),
+        cell('neg-near-pole', pole_near(0, 200, pk=lambda p: (4, p + 10))),
+        cell('neg-near-zero-of-log|gamma|', near_c(Z['loggamma_negzero'], 256, 4, 26)),
+        Cell('complex', args(complex_in(-3, 6))),
+        Cell('complex-left', args(lambda r, b: C(raw_rand(r, b, -2, 7, 1), raw_rand(r, b, -3, 6)))),
+        cell('cut-above', cplx(real_in(-3, 8, 1), real_p(lambda p: (-p - 19, -4), 0))),
+        cell('cut-below', cplx(real_in(-3, 8, 1), real_p(lambda p: (-p - 19, -4), 1))),
+        cell('cut-im-tiny', cplx(real_in(-3, 8, 1), real_p(lambda p: (-2 * p - 60, -p - 21)))),
+        cell('right-im-tiny', cplx(real_in(-3, 8, 0), real_p(lambda p: (-2 * p - 60, -p - 21)))),
+        cell('complex-near-1', near_p(1, lambda p: (4, 2 * p + 50), cplx=(-300, -4)), n=(14, 110)),
+        cell('complex-near-1-im-p', cplx(near_p(1, lambda p: (11, 2 * p + 50)), real_p(lambda p: (-2 * p - 50, -11)))),
+        cell('complex-near-2-im-p', cplx(near_p(2, lambda p: (11, 2 * p + 50)), real_p(lambda p: (-2 * p - 50, -11)))),
+        cell('complex-near-minus-1-2', cplx(near_any([-1, -2], pk=lambda p: (11, 2 * p + 50)), real_p(lambda p: (-2 * p - 50, -11)))),
+        cell('complex-small-|z|<=1/2', polar(0.004, 0.5)),
+        cell('complex-|z|-around-1/2', polar(0.4, 0.7)),
+        Cell('complex-large', args(complex_in(7, 30))),
+        cell('complex-huge-switch', cplx(real_p(lambda p: (p + 14, p + 27)), real_p(lambda p: (p + 10, p + 30)))),
+        cell('complex-huge-left', cplx(real_p(lambda p: (p + 14, p + 40), 1), real_p(lambda p: (p - 5, p + 45)))),
+        Cell('imaginary-axis', args(lambda r, b: C((0, 0, 0, 0), raw_rand(r, b, -6, 12)))),
+    ],
+    'fac2': [
+        Cell('int-odd-even', args(integer(0, 300))),
+        cell('neg-odd-int', ints(-1, -3, -5, -7, -9, -15, -21, -51, -101)),
+        Cell('real', args(real_in(-3, 7))),
+        cell('tiny', real_p(lambda p: (-2 * p - 40, -8))),
+        cell('near-pole-neg-even', near_any([-2, -4, -6, -8, -20, -50], pk=lambda p: (4, max(4, p - 8)))),
+        Cell('complex', args(complex_in(-3, 1))),
+        Cell('complex-im-2..8', args(lambda r, b: C(raw_rand(r, b, -2, 4), raw_rand(r, b, 1, 3))), oracle=_fac2_oracle),
+        Cell('complex-im-8..64', args(lambda r, b: C(raw_rand(r, b, -2, 4), raw_rand(r, b, 3, 6))), cost=2, oracle=_fac2_oracle),
+    ],
+    'beta': [
+        Cell('pos', args(pos_real, pos_real)),
+        Cell('int', args(integer(1, 60), integer(1, 60))),
+        Cell('real', args(any_real, any_real)),
+        Cell('large', args(real_in(6, 14, 0), real_in(-2, 14, 0))),
+        cell('tiny', real_p(lambda p: (-2 * p - 20, -8)), real_in(-3, 3)),
+        cell('near-pole', pole_near(0, 8, pk=lambda p: (4, p + 8)), real_in(-2, 3)),
+        Cell('sum-near-nonpos-int', _beta_sum_near(True), pgen=True),
+        Cell('sum-within-2^-2p-of-nonpos-int', _beta_sum_near(False), pgen=True),
+        Cell('neg-int-sum-cancel', args(lambda r, b: R(canon(r.randint(0, 1), 2 * r.randint(0, 20) + 1, -1)),
+                                        lambda r, b: I(-r.randint(0, 9)))),
+        Cell('complex', args(complex_in(-3, 4), complex_in(-3, 4))),
+        Cell('complex-real', args(complex_in(-3, 4), any_real)),
+    ],
+    'binomial': [
+        Cell('int', args(integer(0, 300), integer(0, 300))),
+        Cell('int-large', args(integer(10**3, 10**6), integer(0, 2000))),
+        Cell('neg-int-n', args(integer(-40, -1), integer(0, 30))),
+        Cell('neg-int-k', args(integer(-30, 30), integer(-30, -1))),
+        Cell('real', args(any_real, any_real)),
+        Cell('real-n-int-k', args(real_in(-3, 10), integer(0, 60))),
+        cell('tiny-k', real_in(-3, 6), real_p(lambda p: (-2 * p - 20, -8))),
+        cell('near-neg-int-n', pole_near(1, 12, pk=lambda p: (4, p + 8)), real_in(-3, 3)),
+        Cell('half', args(half_integer(-40, 40), half_integer(-40, 40))),
+        Cell('complex', args(complex_in(-3, 4), complex_in(-3, 4))),
+    ],
+    'rf': [
+        Cell('real-int', args(any_real, integer(0, 80))),
+        Cell('int-int', args(integer(-30, 60), integer(0, 60))),
+        Cell('neg-int-cancel', args(integer(-40, -1), integer(-10, 60))),
+        Cell('real-real', args(any_real, any_real)),
+        Cell('large', args(real_in(6, 16, 0), real_in(-2, 10))),
+        cell('near-neg-int', pole_near(0, 12, pk=lambda p: (4, p + 8)), integer(0, 20)),
+        cell('tiny-n', real_in(-3, 6), real_p(lambda p: (-2 * p - 20, -8))),
+        Cell('complex', args(complex_in(-3, 4), complex_in(-3, 3))),
+        Cell('complex-int', args(complex_in(-3, 5), integer(0, 40))),
+    ],
+    'ff': [
+        Cell('real-int', args(any_real, integer(0, 80))),
+        Cell('int-int', args(integer(-30, 60), integer(0, 60))),
+        Cell('int-int-n>x', args(integer(0, 30), integer(31, 80))),
+        Cell('real-real', args(any_real, any_real)),
+        Cell('large', args(real_in(6, 16, 0), real_in(-2, 10))),
+        cell('near-neg-int', pole_near(1, 12, pk=lambda p: (4, p + 8)), integer(0, 20)),
+        cell('tiny-n', real_in(-3, 6), real_p(lambda p: (-2 * p - 20, -8))),
+        Cell('complex', args(complex_in(-3, 4), complex_in(-3, 3))),
+        Cell('complex-int', args(complex_in(-3, 5), integer(0, 40))),
+    ],
+    'gammaprod': [
+        Cell('2/1-real', args(any_real, any_real, any_real), fn=_gp(2, 1)),
+        Cell('1/2-real', args(any_real, any_real, any_real), fn=_gp(1, 2)),
+        Cell('2/2-pos', args(pos_real, pos_real, pos_real, pos_real), fn=_gp(2, 2)),
+        Cell('3/0-int', args(integer(1, 40), integer(1, 40), integer(1, 40)), fn=_gp(3, 0)),
+        Cell('0/2-real', args(any_real, any_real), fn=_gp(0, 2)),
+        Cell('poles-cancel-1/1', args(integer(-30, 0), integer(-30, 0)), fn=_gp(1, 1)),
+        Cell('poles-cancel-2/2', args(integer(-12, 0), any_real, integer(-12, 0), any_real), fn=_gp(2, 2)),
+        Cell('poles-cancel-2/2-all', args(integer(-12, 0), integer(-12, 0), integer(-12, 0), integer(-12, 0)), fn=_gp(2, 2)),
+        Cell('pole-in-denominator-zero', args(any_real, integer(-12, 0)), fn=_gp(1, 1)),
+        cell('near-poles-1/1', pole_near(0, 12, pk=lambda p: (4, p + 8)), pole_near(0, 12, pk=lambda p: (4, p + 8)), fn=_gp(1, 1)),
+        Cell('2/1-complex', args(complex_in(-3, 4), complex_in(-3, 4), complex_in(-3, 4)), fn=_gp(2, 1)),
+        Cell('large-ratio', args(real_in(8, 16, 0), real_in(8, 16, 0)), fn=_gp(1, 1)),
+    ],
+    'digamma': [
+        Cell('int', args(integer(1, 2000))),
+        Cell('pos', args(real_in(-4, 5, 0))),
+        cell('recurrence-switch', around(lambda p: 0.11 * (p + 10) + 2, 2.5)),
+        Cell('pos-large', args(real_in(5, 20, 0))),
+        cell('log-only-switch', real_p(lambda p: (p + 6, p + 16), 0)),
+        cell('log-only', real_p(lambda p: (p + 17, 3 * p + 100), 0)),
+        Cell('small', args(real_in(-40, -4))),
+        cell('small-switch', around(1.0 / 32, 1.0 / 128)),
+        cell('tiny', real_p(lambda p: (-2 * p - 50, -p - 5))),
+        Cell('neg', args(real_in(-3, 3, 1))),
+        cell('reflection-switch', around(8, 0.6, sign=-1)),
+        Cell('neg-reflection', args(real_in(4, 14, 1))),
+        cell('near-pole', pole_near(0, 7, pk=lambda p: (4, p + 10))),
+        cell('near-pole-reflection', pole_near(8, 3000, pk=lambda p: (4, p + 10))),
+        cell('near-positive-zero', near_c(Z['gamma_min'], 256, 4, 26)),
+        cell('near-negative-zero', lambda r, b, p: near_c(r.choice([Z['psi_zero_neg1'], Z['psi_zero_neg2'], Z['psi_zero_neg3']]),
+                                                          256, 4, 26)(r, b, p)),
+        Cell('half-int', args(half_integer(-100, 400))),
+        Cell('complex', args(complex_in(-3, 5)), oracle=_psi_oracle, tmax=3),
+        Cell('complex-left', args(lambda r, b: C(raw_rand(r, b, 3, 10, 1), raw_rand(r, b, -3, 6))), oracle=_psi_oracle, tmax=3),
+        cell('complex-re-in-(-8,-7)', cplx(uniform(-7.999, -7.001), real_in(-6, 3)), n=(10, 40), oracle=_psi_oracle, tmax=3),
+        cell('complex-reflection-side', cplx(uniform(-8.6, -8.0), real_in(-6, 3)), oracle=_psi_oracle, tmax=3),
+        cell('complex-im-tiny', cplx(real_in(-2, 6), real_p(lambda p: (-2 * p - 40, -p + 5))), oracle=_psi_oracle, tmax=3),
+        cell('complex-near-pole', pole_near(0, 40, 4, 40, im=lambda p: (-min(40, max(5, p - 10)), -4)), oracle=_psi_oracle, tmax=3),
+        Cell('complex-large', args(complex_in(6, 20))),
+        cell('complex-log-only-switch', cplx(real_p(lambda p: (p + 14, p + 27), 0), real_in(-3, 20))),
+        Cell('complex-im-large', args(lambda r, b: C(raw_rand(r, b, -2, 4), raw_rand(r, b, 5, 14)))),
+    ],
+    'polygamma': [
+        Cell('m1-3-pos', args(integer(1, 3), real_in(-4, 6, 0)), fn=_psi_m),
+        Cell('m1-3-neg', args(integer(1, 3), real_in(-3, 7, 1)), fn=_psi_m, cost=2),
+        Cell('m4-12', args(integer(4, 12), real_in(-3, 6)), fn=_psi_m, cost=2),
+        Cell('m-large', args(choice(20, 33, 50, 100), real_in(-2, 6, 0)), fn=_psi_m, cost=2),
+        cell('recurrence-switch', integer(1, 4), around(lambda p: 0.4 * (p + 20) + 8, 8), fn=_psi_m, cost=2),
+        Cell('x-large', args(integer(1, 6), real_in(7, 20, 0)), fn=_psi_m),
+        cell('x-huge', integer(1, 4), real_p(lambda p: (p, 2 * p + 40), 0), fn=_psi_m),
+        cell('tiny', integer(1, 4), real_p(lambda p: (-p - 30, -6)), fn=_psi_m, cost=2),
+        cell('near-pole', integer(1, 4), pole_near(0, 30, pk=lambda p: (4, p + 8)), fn=_psi_m, cost=2),
+        Cell('int', args(integer(1, 8), integer(1, 300)), fn=_psi_m),
+        Cell('complex', args(integer(1, 5), complex_in(-3, 5)), fn=_psi_m, cost=2),
+        Cell('complex-left', args(integer(1, 3), lambda r, b: C(raw_rand(r, b, 2, 8, 1), raw_rand(r, b, -3, 5))), fn=_psi_m, cost=2),
+        Cell('m0-is-digamma', args(const(I(0)), real_in(-3, 8)), fn=_psi_m),
+    ],
+    'harmonic': [
+        Cell('int', args(integer(1, 3000))),
+        Cell('pos', args(real_in(-3, 6, 0))),
+        Cell('pos-large', args(real_in(6, 30, 0))),
+        Cell('small-2^-4..2^-12', args(real_in(-12, -4))),
+        Cell('small-2^-12..2^-40', args(real_in(-40, -12)), oracle=_harm_oracle),
+        cell('small-2^-40..2^-p', real_p(lambda p: (min(-p - 2, -44), -40)), oracle=_harm_oracle),
+        cell('tiny', real_p(lambda p: (-2 * p - 50, -p - 2)), oracle=_harm_oracle),
+        Cell('neg', args(real_in(-2, 3, 1))),
+        Cell('neg-reflection', args(real_in(4, 12, 1))),
+        cell('near-pole', pole_near(1, 40, pk=lambda p: (4, p + 8))),
+        cell('near-negative-zero', near_c(Z['harmonic_zero_neg'], 256, 4, 26)),
+        Cell('complex', args(complex_in(-3, 5)), oracle=_harm_oracle, tmax=3),
+        Cell('complex-small', args(complex_in(-40, -4)), oracle=_harm_oracle, tmax=3),
+        Cell('complex-large', args(complex_in(6, 20))),
+    ],
+    'barnesg': [
+        Cell('int', args(integer(1, 40)), cost=2),
+        Cell('real-small', args(real_in(-4, 2)), cost=3),
+        Cell('real-2..32', args(real_in(2, 5, 0)), cost=3),
+        Cell('real-large', args(real_in(6, 12, 0)), cost=3),
+        Cell('neg', args(real_in(1, 5, 1)), cost=3),
+        cell('near-zero-at-nonpos-int', pole_near(0, 12, 4, 30), cost=3),
+        cell('reflection-switch', around(lambda p: int((p + 10) / 3.33) + 1, 3, sign=-1), cost=3),
+        Cell('complex', args(complex_in(-2, 4)), cost=3),
+        cell('tiny', real_p(lambda p: (-p - 20, -6)), cost=3),
+    ],
+    'superfac': [
+        Cell('int', args(integer(0, 40)), cost=2),
+        Cell('real', args(real_in(-3, 3)), cost=3),
+        Cell('real-8..64', args(real_in(3, 6, 0)), cost=3),
+        Cell('real-large', args(real_in(6, 12, 0)), cost=3),
+        Cell('complex', args(complex_in(-2, 4)), cost=3),
+        cell('tiny', real_p(lambda p: (-p - 20, -6)), cost=3),
+    ],
+    'hyperfac': [
+        Cell('int', args(integer(0, 40)), cost=2),
+        Cell('neg-int', args(integer(-30, -1)), cost=2),
+        Cell('real', args(real_in(-3, 3)), cost=3),
+        Cell('real-8..64', args(real_in(3, 6, 0)), cost=3),
+        Cell('real-large', args(real_in(6, 12, 0)), cost=3),
+        Cell('complex', args(complex_in(-2, 4)), cost=3),
+        cell('tiny', real_p(lambda p: (-p - 20, -6)), cost=3),
+    ],
+}
 def shards(tier, seed):
-    return [{'n': CASES[tier], 'nshards': 16} for _ in range(16)]
+    return [{'nshards': NSHARDS, 'budget_s': 330 if tier == 'quick' else 2700} for _ in range(NSHARDS)]
+
+
+# ---- exact special clauses -------------------------------------------------------------------------------
+
+POLES = list(range(0, -41, -1)) + [-100, -149, -150, -151, -1000, -4096, -10**6, -(2**70), -(10**30), -(2**200), -(3 << 500)]
+
+
+def check_poles(rec, r, tier):
+    """rgamma is exactly zero at the poles 0, -1, -2, ... and gamma raises there (all argument types, all precisions)"""
+    import mpmath
+    mp = mpmath.mp
+    precs = [10, 15, 53, 100, 333, 400, 1000] if tier == 'quick' else S.PRECS_LIGHT + [2500, 3500]
+    old = mp.prec
+    try:
+        for n in POLES:
+            for p in precs:
+                mp.prec = p
+                forms = [('int', n), ('mpf', mp.mpf(n)), ('mpc', mp.mpc(n, 0))]
+                if abs(n) < 2**53:
+                    forms.append(('float', float(n)))
+                for tname, x in forms:
+                    case = {'function': 'rgamma', 'regime': 'exact-pole', 'n': n, 'type': tname, 'prec': p}
+                    rec.case(('rgamma-pole', n, tname, p), True, 'rgamma/exact-pole')
+                    try:
+                        v = mp.rgamma(x)
+                        ok = (v == 0) and (getattr(v, '_mpf_', None) == (0, 0, 0, 0) or
+                                           getattr(v, '_mpc_', None) == ((0, 0, 0, 0), (0, 0, 0, 0)))
+                        obs = repr(v)
+                    except Exception as e:
+                        ok, obs = False, repr(e)
+                    if not ok:
+                        rec.violation('C18/rgamma/pole-not-exact-zero', 'rgamma at a pole is not exactly zero', case, obs, '0')
+                    case = {'function': 'gamma', 'regime': 'pole-raises', 'n': n, 'type': tname, 'prec': p}
+                    rec.case(('gamma-pole', n, tname, p), True, 'gamma/pole-raises')
+                    try:
+                        v = mp.gamma(x)
+                        rec.violation('C18/gamma/pole-does-not-raise', 'gamma at a pole returned a value instead of raising',
+                                      case, repr(v), 'exception')
+                    except Exception as e:
+                        rec.cls('gamma/pole-raises/' + type(e).__name__)
+    finally:
+        mp.prec = old
+    rec.event('exact pole checks (rgamma == 0, gamma raises)', len(POLES))
 
 
 def run_shard(shard, rec):
-    S.run(PROP, TABLE, shard, rec, shard['n'])
+    if shard['shard'] == 0:
+        from vf import gens as G
+        check_poles(rec, G.rng(PROP, shard['seed'], 'poles'), shard.get('tier', 'quick'))
+    J.run(PROP, TABLE, shard, rec)
 
 
-required = S.required_functions(TABLE)
+_req = J.required_cells(TABLE)
+
+
+def required(agg, tier):
+    miss = _req(agg, tier)
+    if not agg['classes'].get('rgamma/exact-pole') or not agg['classes'].get('gamma/pole-raises'):
+        miss.append('exact pole clauses never exercised')
+    return miss
 
 
 def replay(case, rec):
-    S.replay(PROP, TABLE, case, rec)
+    J.replay(PROP, TABLE, case, rec)
